@@ -65,11 +65,6 @@ def decode_image(img, d, n, auto):
     return ref, got
 
 
-def allowed_states(op, before, after_model_fn):
-    """List of acceptable contents for a crash during `op`."""
-    return None
-
-
 def run_case(case, ctx, acc, kill_validation=0):
     try:
         return _run_case(case, ctx, acc, kill_validation)
@@ -157,12 +152,9 @@ def _run_case(case, ctx, acc, kill_validation=0):
 
 def replay_child(case, path, kill_at):
     """Child process: replay the history on `path` and SIGKILL self at step kill_at."""
-    ls = lockstep.Lockstep.__new__(lockstep.Lockstep)
-    # built by hand: same executor, no harness reads
-    from .. import model as _m
-
+    # same executor as the simulated run, no harness reads
     ctx = core.Ctx("kill", 0, set(), os.path.dirname(path), 0)
-    ls.__init__(ctx, configs=[("csv", case["auto_index"])])
+    ls = lockstep.Lockstep(ctx, configs=[("csv", case["auto_index"])])
     real = ls.reals[0]
     real.close()
     os.remove(real.path)
@@ -177,8 +169,6 @@ def replay_child(case, path, kill_at):
 
 
 def validate_with_real_kills(case, snaps, nsteps, ctx, acc, count):
-    import hashlib
-
     ks = sorted({(i * 2654435761) % (nsteps + 1) for i in range(count)})
     for k in ks:
         d = ctx.fresh_dir()
